@@ -21,7 +21,7 @@ CHECKS = {
 CHECKS["C09"] = dict(
     engine="E1", category="model_checking", design="4/C09",
     technique="explicit-state BFS over schedule/claim/finish/reschedule/tick sequences on the real Queue and TaskQueue against a reference queue, plus fork-checkpointed exploration of a world with claim-and-crash / restart operations",
-    text="(a) every operation sequence up to depth 5 (10 thorough) on the real Queue, compared step by step with a reference queue (earliest-due-first, soonest-wins, if-missing); (b) every sequence up to depth 5 (10) on the real TaskQueue including the start-up re-queue logic, with 0 to 4 tasks running at restart; (c) world exploration (depth 4 quick, up to 8 thorough) where the daemon dies after claiming a task or with tasks pending, restarts, and must end with nothing stuck in running, all recurring tasks queued and the C01 oracle holding.",
+    text="(a) every operation sequence up to depth 5 (10 thorough) on the real Queue, compared step by step with a reference queue (earliest-due-first, soonest-wins, if-missing); (b) every sequence up to depth 5 (10) on the real TaskQueue including the start-up re-queue logic, with 0 to 4 tasks running at restart; (c) world exploration (depth 4 quick, up to 8 thorough) where the daemon dies after claiming a task or with tasks pending, restarts, and must end with nothing stuck in running, all recurring tasks queued and the C01 oracle holding. (d) the real start-up path (StartupManager::run_scheduler, real scheduler thread) from crashed states with 0-2 running tasks; (e) binding of the scheduler stand-in: from 6 (10 thorough) states with due work - tasks ending as done, follow-up and reschedule - the queue is drained once by the stand-in every world-based check uses and once by the real scheduler::run loop on its own thread; canonical state and queue must be equal.",
     note=E1_NOTE + " A crash while a task runs is modelled as claim-without-effect + restart; crashes inside a task body belong to C08.")
 
 CHECKS["C02"] = dict(
